@@ -196,8 +196,8 @@ package common
 //@       offset <= as.Signers[j] && as.Signers[j] < offset + len(utxo.Keys) && has(keySigs, utxo.Keys[as.Signers[j] - offset])
 //@   loop 0 invariant [c02-kept] @C02 forall p *crypto.Key :: old(has(keySigs, p)) ==> has(keySigs, p) && keySigs[p] == old(keySigs[p])
 //@   loop 0 invariant [c02-dom] @C02 forall p *crypto.Key :: has(keySigs, p) ==> old(has(keySigs, p)) || allocated(p)
-//@   loop 1 invariant [c02-seen] @C02 forall i uint16 :: visited(sigs[index], i) ==> i < len(utxo.Keys) && has(keySigs, utxo.Keys[i])
-//@   loop 1 invariant [c02-seen-sig] @C02 PtrDistinct(utxo.Keys) ==> forall i uint16 :: visited(sigs[index], i) ==> keySigs[utxo.Keys[i]] == sigs[index][i]
+//@   loop 1 invariant [c02-seen] @C02 forall i uint16 :: visited(i) ==> i < len(utxo.Keys) && has(keySigs, utxo.Keys[i])
+//@   loop 1 invariant [c02-seen-sig] @C02 PtrDistinct(utxo.Keys) ==> forall i uint16 :: visited(i) ==> keySigs[utxo.Keys[i]] == sigs[index][i]
 //@   loop 1 invariant [c02-len] @C02 len(sigs[index]) == old(len(sigs[index]))
 //@   loop 1 invariant [c02-kept] @C02 forall p *crypto.Key :: old(has(keySigs, p)) ==> has(keySigs, p) && keySigs[p] == old(keySigs[p])
 //@   loop 1 invariant [c02-dom] @C02 forall p *crypto.Key :: has(keySigs, p) ==> old(has(keySigs, p)) || allocated(p)
@@ -271,7 +271,7 @@ package common
 //@       SignedType(InputUtxoType(store, tx.Inputs[k])) ==> k < len(tx.SignaturesMap) && SigCount(tx.SignaturesMap[k]) >= InThreshold(store, tx.Inputs[k])
 //@   loop 1 invariant [c02-lens] @C02 len(keys) == len(sigs)
 //@   loop 1 invariant [c02-wit] @C02 Witness1(len(keys) - 1) -- (constant true) puts the index of the element appended last into the solver's term set
-//@   loop 1 invariant [c02-collected] @C02 forall p *crypto.Key :: visited(keySigs, p) ==> exists a int :: {Witness1(a)} Witness1(a) && 0 <= a && a < len(keys) && keys[a] == p && sigs[a] == keySigs[p]
+//@   loop 1 invariant [c02-collected] @C02 forall p *crypto.Key :: visited(p) ==> exists a int :: {Witness1(a)} Witness1(a) && 0 <= a && a < len(keys) && keys[a] == p && sigs[a] == keySigs[p]
 //@   loop 0 invariant [c01-ord] @C01 forall j int :: 0 <= j && j <= rangeindex ==> OrdInput(tx.Inputs[j])
 //@   loop 0 invariant [c01-sum] @C01 val(inputAmount) == SumIn(store, &tx.Transaction, rangeindex + 1)
 //@   loop 0 invariant [c01-asset] @C01 forall j int :: 0 <= j && j <= rangeindex ==> InputAssetIs(store, tx.Inputs[j], tx.Asset)
@@ -322,12 +322,12 @@ package common
 //@   hint after validateInputs [h-c01-sum] @C01 callerr == nil && txType != TransactionTypeMint && txType != TransactionTypeDeposit ==>
 //@       val(callresult1) == old(SumIn(store, &ver.Transaction, len(ver.Inputs)))
 //@   hint after validateOutputs [h-c01-positive] @C01 callerr == nil ==> old(forall a int :: 0 <= a && a < len(ver.Outputs) ==> val(ver.Outputs[a].Amount) > 0)
-//@   hint after validateOutputs [h-c01-out] @C01 callerr == nil ==> old(SumOut(&ver.Transaction, len(ver.Outputs))) == val(inputAmount)
+//@   hint after validateOutputs [h-c01-out] @C01 callerr == nil ==> old(SumOut(ver.Outputs, len(ver.Outputs))) == val(inputAmount)
 //@   ensures [c01-nonempty] @C01 err == nil ==> old(len(ver.Inputs) >= 1 && len(ver.Outputs) >= 1)
 //@   ensures [c01-shape] @C01 err == nil ==> old(forall j int :: 0 <= j && j < len(ver.Inputs) ==> OrdInput(ver.Inputs[j]) ||
 //@       (len(ver.Inputs) == 1 && len(ver.Inputs[0].Genesis) == 0 && (ver.Inputs[0].Mint != nil || ver.Inputs[0].Deposit != nil)))
 //@   ensures [c01-positive] @C01 err == nil ==> old(forall a int :: 0 <= a && a < len(ver.Outputs) ==> val(ver.Outputs[a].Amount) > 0)
-//@   ensures [c01-conserved] @C01 err == nil ==> old(SumOut(&ver.Transaction, len(ver.Outputs)) == TxInAmount(store, &ver.Transaction))
+//@   ensures [c01-conserved] @C01 err == nil ==> old(SumOut(ver.Outputs, len(ver.Outputs)) == TxInAmount(store, &ver.Transaction))
 //@   ensures [c01-input-positive] @C01 err == nil ==> old(TxInAmount(store, &ver.Transaction) > 0)
 //@   ensures [c01-asset] @C01 err == nil ==> old(forall k int :: 0 <= k && k < len(ver.Inputs) && OrdInput(ver.Inputs[k]) ==>
 //@       InLedger(store, ver.Inputs[k]) && InputAssetIs(store, ver.Inputs[k], ver.Asset))
